@@ -569,6 +569,103 @@ func c18(c *Ctx) {
 		}
 	}
 
+	c.Rule("R7", "E3 per-iteration reset", "in Collect, a label buffer (keyVals) that is appended to inside the per-scope loop is either created inside that loop or emptied on every path from the start of an iteration to the append: labels of one scope never pile up on the next", 2)
+	if fn := c.Fn(px, "R7", "(*collector).Collect"); fn != nil {
+		g := px.FG(fn)
+		fKeys, fVals := lookupField(px.Pkg, "keyVals", "keys"), lookupField(px.Pkg, "keyVals", "vals")
+		// the per-scope loop: the outermost range statement of Collect
+		var loop *ast.RangeStmt
+		inspectNoLit(fn.Body(), func(n ast.Node) bool {
+			if r, ok := n.(*ast.RangeStmt); ok && loop == nil {
+				loop = r
+			}
+			return loop == nil
+		})
+		if loop == nil || fKeys == nil || fVals == nil {
+			c.Undecided("R7", "prometheus|(*collector).Collect|per-scope loop", at(px.M, fn.Pos()), "per-scope range loop / keyVals fields not found")
+		} else {
+			var bodyHead *GNode
+			for b, h := range g.head {
+				if b.Kind.String() == "RangeBody" && b.Stmt == ast.Stmt(loop) {
+					bodyHead = h
+				}
+			}
+			cnt := 0
+			for _, x := range g.Nodes {
+				as, ok := x.N.(*ast.AssignStmt)
+				if !ok || len(as.Lhs) != len(as.Rhs) || !containsNoLit(loop.Body, as) {
+					continue
+				}
+				for i, l := range as.Lhs {
+					fv, base := fieldOf(info, l)
+					if fv == nil || (fv != fKeys && fv != fVals) {
+						continue
+					}
+					v := objOf(info, base)
+					call, isC := unparen(as.Rhs[i]).(*ast.CallExpr)
+					if v == nil || !isC || builtinName(info, call) != "append" || len(call.Args) == 0 {
+						continue
+					}
+					// a self-append: append(v.f, …) — append(v.f[:0], …) is a reset
+					if f2, b2 := fieldOf(info, call.Args[0]); f2 != fv || b2 == nil || !sameVar(info, b2, v) {
+						continue
+					}
+					cnt++
+					key := "prometheus|(*collector).Collect|" + exprStr(l) + " #" + itoa(cnt) + " starts empty for every scope"
+					if definedIn(info, loop.Body, v) {
+						c.OK("R7", key, at(px.M, as.Pos()), "the buffer is created inside the loop")
+						continue
+					}
+					// negative form: from the start of an iteration the append is reachable only through a reset of that field
+					isReset := func(y *GNode) bool {
+						if y == x || y.N == nil {
+							return false
+						}
+						hit := false
+						inspectNoLit(y.N, func(m ast.Node) bool {
+							a2, isAs := m.(*ast.AssignStmt)
+							if !isAs || len(a2.Lhs) != len(a2.Rhs) {
+								return true
+							}
+							for j, l2 := range a2.Lhs {
+								if sameVar(info, l2, v) {
+									// the whole value replaced: by a literal / call, not by itself
+									if !sameVar(info, a2.Rhs[j], v) {
+										hit = true
+									}
+								}
+								if f3, b3 := fieldOf(info, l2); f3 == fv && b3 != nil && sameVar(info, b3, v) {
+									c3, isC3 := unparen(a2.Rhs[j]).(*ast.CallExpr)
+									selfApp := false
+									if isC3 && builtinName(info, c3) == "append" && len(c3.Args) > 0 {
+										if f4, b4 := fieldOf(info, c3.Args[0]); f4 == fv && b4 != nil && sameVar(info, b4, v) {
+											selfApp = true
+										}
+									}
+									if !selfApp {
+										hit = true
+									}
+								}
+							}
+							return true
+						})
+						return hit
+					}
+					good := bodyHead != nil
+					if good {
+						seen, _ := g.Reach([]*GNode{bodyHead}, isReset, nil)
+						good = !seen[x]
+					}
+					c.Check(good, "R7", key, at(px.M, as.Pos()), "emptied on every path from the start of the iteration",
+						"the label buffer is declared outside the per-scope loop and appended to without being emptied first on some path: labels of earlier scopes pile up (duplicate label names, the scope's series are dropped)")
+				}
+			}
+			if cnt == 0 {
+				c.Undecided("R7", "prometheus|(*collector).Collect|label buffer appends", at(px.M, fn.Pos()), "no append to a keyVals buffer found in the per-scope loop (4 confirmed by reading)")
+			}
+		}
+	}
+
 	c.Rule("R6", "E5 ownership", "a buffer taken from a sync.Pool on the scrape path goes back at most once per Get (a second Put hands the same buffer to two later scrapes, which then rewrite each other's data)", 1)
 	for _, f := range sortedFuncs(px.Funcs) {
 		// per variable obtained from pool.Get(): the Put sites (deferred or not)
